@@ -63,7 +63,8 @@ CHECKS["C06"] = {
 }
 CHECKS["C08"] = {
     "level": "exploration",
-    "jobs": [J("narrowing", "c08", "TestNarrowing", 4000, 100000, 12)],
+    "jobs": [J("narrowing", "c08", "TestNarrowing", 4000, 100000, 12),
+             J("narrowing-fmtlogger", "c08", "TestNarrowing", 800, 10000, 2, env={"VERIF_FMT_LOGGER": "1"})],  # every log argument is formatted (trace-level logger)
     "assumptions": [
         "several Primary components, or no Primary and several unnamed ones, form a tie: any member of that top rank is accepted",
         "qualifier lists are generated as either the single empty qualifier or a list of non-empty names",
@@ -117,6 +118,7 @@ CHECKS["C05"] = {
     "level": "exploration",
     "jobs": [
         J("lifecycle", "c05", "TestLifecycle", 2000, 50000, 8),
+        J("lifecycle-fmtlogger", "c05", "TestLifecycle", 500, 8000, 2, env={"VERIF_FMT_LOGGER": "1"}),
         J("sparse", "c05", "TestLifecycleSparse", 2000, 50000, 8),
     ],
     "assumptions": [
@@ -160,7 +162,8 @@ CHECKS["C13"] = {
 CHECKS["C14"] = {
     "level": "exploration",
     "jobs": [J("close", "c14", "TestClose", 2500, 200000, 8), J("slowcloser", "c14", "TestSlowCloser", None, None),
-             J("serving", "c14", "TestCloseWhileRunnerServes", 300, 10000, 2)],
+             J("serving", "c14", "TestCloseWhileRunnerServes", 300, 10000, 2),
+             J("localtypes", "c14", "TestLocalTypesSharingAName", None, None)],
     "assumptions": [
         "the harness owns the finishing order of the Close calls through per-closer gates; gates are opened independently of whether the closer has been entered, so a sequential implementation is not rejected",
         "the only wall-clock bound (10 s) applies after every gate is open, i.e. when all work is provably finishable",
@@ -205,7 +208,8 @@ CHECKS["C15"] = {
     "level": "exploration",
     "jobs": [J("merge", "c15", "TestMerge", 2500, 60000, 8), J("reinitialize", "c15", "TestReinitialize", 800, 20000, 4),
              J("sharedlist", "c15", "TestSharedLoaderList", 300, 6000, 2),
-             J("orderedloaders", "c15", "TestOrderedLoaders", 1500, 40000, 2)],
+             J("orderedloaders", "c15", "TestOrderedLoaders", 1500, 40000, 2),
+             J("overlappingruns", "c15", "TestOverlappingIocRuns", 60, 1500, 2, env={"VERIF_GLOBAL_SETTINGS": "1"})],
     "assumptions": [
         "documents are shape-consistent (a key is a map in every source or a leaf in every source): what Viper does with map-vs-scalar conflicts is third-party behaviour outside the property",
         "keys are lower-case (Viper lower-cases keys); argument sources carry ints and plain strings only",
@@ -217,6 +221,7 @@ CHECKS["C16"] = {
     "level": "exploration",
     "jobs": [
         J("value", "c16", "TestValue", 3000, 80000, 8),
+        J("value-fmtlogger", "c16", "TestValue", 800, 10000, 2, env={"VERIF_FMT_LOGGER": "1"}),
         J("prefix", "c16", "TestPrefix", 800, 20000, 4),
         J("wire", "c16", "TestWire", 600, 10000, 2),
         J("retryafterset", "c16", "TestRetryAfterSet", 800, 10000, 2),
@@ -239,6 +244,7 @@ CHECKS["C17"] = {
         J("structshapes", "c17", "TestStructShapes", 600, 10000, 2),
         J("inconvertible", "c17", "TestInconvertible", 600, 10000, 2),
         J("history", "c17", "TestRebindHistory", 800, 20000, 4),
+        J("argsvalues", "c17", "TestArgsValues", 300, 5000, 2),
         J("known", "c17", "TestKnownAnyNumberKind", None, None),
     ],
     "assumptions": [
@@ -253,6 +259,8 @@ CHECKS["C18"] = {
     "jobs": [
         J("expressions", "c18", "TestExpressions", 3000, 80000, 8),
         J("validatevar", "c18", "TestValidateVar", 3000, 80000, 8),
+        J("validatevar-fmtlogger", "c18", "TestValidateVar", 1500, 20000, 2, env={"VERIF_FMT_LOGGER": "1"}),
+        J("expressions-fmtlogger", "c18", "TestExpressions", 800, 10000, 2, env={"VERIF_FMT_LOGGER": "1"}),
         J("validatestruct", "c18", "TestValidateStruct", 1000, 20000, 4),
         J("validatemulti", "c18", "TestValidateMulti", 1500, 30000, 4),
 J("retryhistory", "c18", "TestRetryHistory", 600, 15000, 2),
